@@ -20,7 +20,7 @@ import (
 // model of the resumption policy (DESIGN.md Appendix D).
 
 var resFaults = []string{"rotate-keep-old", "rotate-drop-old", "rotate-retire-old-only", "rotate-readmit-retired", "rotate-old-key-primary-again", "restart-keep-key", "restart-lose-key", "change-suites", "change-client-auth", "disable-tickets", "enable-tickets", "evict-by-other-name", "other-server-shared-key", "other-server-own-key",
-	"change-max-version", "clone-config", "ticket-byte-flip", "ticket-truncated", "ticket-extended", "ticket-suite-not-offered", "ticket-genuine-via-reference-client", "clock-jump", "connection-damaged-after-ticket", "change-client-cas", "library-default-ticket-key", "hello-without-null-compression", "peer-certificate-callback-rejects"}
+	"change-max-version", "clone-config", "ticket-byte-flip", "ticket-truncated", "ticket-extended", "ticket-suite-not-offered", "ticket-genuine-via-reference-client", "clock-jump", "connection-damaged-after-ticket", "change-client-cas", "library-default-ticket-key", "hello-without-null-compression", "peer-certificate-callback-rejects", "config-time-far-from-process-clock"}
 var resReach = []string{"resumed", "full-handshake", "resumed-with-old-key-ticket-refreshed", "fallback-after-rotation", "fallback-suite-change", "fallback-client-auth", "fallback-tickets-off", "fallback-evicted", "fallback-forged-ticket", "completeness-checked", "soundness-checked", "master-equal-checked", "wire-decoded-resumed", "gm-mode", "tls-mode", "client-cert-in-ticket", "history>=4", "refclient-tls12", "wire-decoded-resumed-tls12", "policy-forbids-failed", "ticket-seen-in-failed-handshake", "per-connection-config"}
 
 func init() {
@@ -95,6 +95,7 @@ func runResumption(c *simkit.Choice, r *simkit.Rec) {
 	// the client's certificate is issued by an intermediate CA and travels with it
 	// (the ticket then carries two certificates)
 	clientChain := c.Bool(1, 3, simkit.LScen)
+	farClock := c.Bool(1, 4, simkit.LScen)
 	// application protocols configured on both ends (TLS mode): what was negotiated is reported alike
 	alpn := c.Bool(1, 3, simkit.LScen)
 	nops := c.Range(2, 6, simkit.LScen)
@@ -121,6 +122,17 @@ func runResumption(c *simkit.Choice, r *simkit.Rec) {
 	}
 	nextGen := 1
 	skew := int64(0)
+	// farClock: every Config's Time is three years ahead of the process clock and the
+	// client's certificate is valid around that date only - whatever consults the
+	// process clock instead of Config.Time finds it not yet valid
+	cliName, tlsCliName := "cli", "tlsclirsa"
+	farBase := int64(0)
+	if farClock {
+		farBase = 1096 * 24 * 3600e9
+		skew = farBase
+		cliName, tlsCliName = "clifar", "tlsclifar"
+		r.Fault(idx(resFaults, "config-time-far-from-process-clock"))
+	}
 	// perConn: the listener's configuration hands every connection a freshly built
 	// Config through GetConfigForClient (no ticket keys of its own: "the session
 	// ticket keys of the original Config are used", rotations included)
@@ -232,12 +244,12 @@ func runResumption(c *simkit.Choice, r *simkit.Rec) {
 	clientLog := &bytes.Buffer{}
 	entC := simkit.NewStream(seed + 5)
 	mkClient := func(name string, suites []uint16) *gmtls.Config {
-		cc := &gmtls.Config{Rand: entC, Time: simTime(s, 0), KeyLogWriter: clientLog, ServerName: name, ClientSessionCache: cache, CipherSuites: suites}
+		cc := &gmtls.Config{Rand: entC, Time: simTime(s, farBase), KeyLogWriter: clientLog, ServerName: name, ClientSessionCache: cache, CipherSuites: suites}
 		if gm {
 			cc.GMSupport = gmtls.NewGMSupport()
 			cc.RootCAs = pki.Pool("caA")
 			if clientHasCert {
-				cc.Certificates = []gmtls.Certificate{pki.GM("cli")}
+				cc.Certificates = []gmtls.Certificate{pki.GM(cliName)}
 				if clientChain {
 					cc.Certificates = []gmtls.Certificate{pki.GM("cliint", "caAint")}
 				}
@@ -245,7 +257,7 @@ func runResumption(c *simkit.Choice, r *simkit.Rec) {
 		} else {
 			cc.RootCAs = pki.Pool("rsaCA")
 			if clientHasCert {
-				cc.Certificates = []gmtls.Certificate{pki.GMStd("tlsclirsa")}
+				cc.Certificates = []gmtls.Certificate{pki.GMStd(tlsCliName)}
 				if clientChain {
 					cc.Certificates = []gmtls.Certificate{pki.GMStd("tlscliint", "rsaInt")}
 				}
@@ -928,7 +940,7 @@ func runResumption(c *simkit.Choice, r *simkit.Rec) {
 				history = append(history, fmt.Sprintf("refclient(%s,kind=%d)", sv.name, kind))
 				rc := &reftls.ClientCfg{Rand: simkit.NewStream(seed + uint64(step)*31), Suites: offer, ServerName: "server.sim", Ticket: ticket, Master: it.master}
 				if clientHasCert {
-					rc.Cert = ident("cli", true)
+					rc.Cert = ident(cliName, true)
 					if clientChain {
 						rc.Cert = &reftls.Identity{Chain: [][]byte{pki.DER("cliint"), pki.DER("caAint")}, Key: pki.D("cliint")}
 					}
@@ -936,7 +948,7 @@ func runResumption(c *simkit.Choice, r *simkit.Rec) {
 				if !gm {
 					rc.Vers, rc.VersSet = reftls.VersionTLS12, true
 					if clientHasCert {
-						rc.Cert = &reftls.Identity{Chain: [][]byte{pki.DER("tlsclirsa")}, RSA: refRSA("tlsclirsa")}
+						rc.Cert = &reftls.Identity{Chain: [][]byte{pki.DER(tlsCliName)}, RSA: refRSA(tlsCliName)}
 						if clientChain {
 							rc.Cert = &reftls.Identity{Chain: [][]byte{pki.DER("tlscliint"), pki.DER("rsaInt")}, RSA: refRSA("tlscliint")}
 						}
